@@ -328,19 +328,22 @@ _ADD = {
     "C01": dict(level_note=_T, technique="; plus a harness-scheduled unit in which the subscriptions change while one message is being fanned out",
                 assumptions=["unit fanout-churn: the fan-out is held at one delivery (yield publish.after-write / writeMessage.enter); a subscriber that changed its subscription meanwhile may or may not receive the message"]),
     "C02": dict(level_note=_T + " Broker role: the publisher's last packet may arrive together with the end of its stream (half-close)."),
-    "C05": dict(level_note=_T + " Includes packets of limit-1 ... limit+4 bytes written in two pieces cut around the limit mark, then the socket is cut."),
+    "C05": dict(level_note=_T + " Includes packets of limit-1 ... limit+4 bytes written in two pieces cut around the limit mark, then the socket is cut; unit delivery-windows holds a delivery inside the reservation of the subscriber's outgoing buffer while the subscriber is cut and a second delivery queues up behind it."),
     "C07": dict(level_note=_T, technique="; and a unit in which other subscribers unsubscribe / resubscribe / drop while a message is being fanned out",
                 assumptions=["unit fanout-churn: see C01"]),
-    "C08": dict(level_note=_T + " In-process subscriber callbacks may refuse what Server.Subscribe hands them or return errors for live deliveries."),
+    "C08": dict(level_note=_T + " In-process subscriber callbacks may refuse what Server.Subscribe hands them or return errors for live deliveries. Unit update-windows: a retained update is accepted while a matching SUBSCRIBE is held at one of its calls into the topics provider, or while a matching subscriber is going down.",
+                assumptions=["unit update-windows: one update, one held SUBSCRIBE or teardown; the windows are the four provider calls of a SUBSCRIBE and the closing steps of a teardown (yield Close.after-done)"]),
     "C09": dict(level_note=_T + " Connects may be pipelined (CONNECT + PINGREQ, or CONNECT + DISCONNECT in one write)."),
-    "C10": dict(level_note=_T + " Connects may be pipelined."),
+    "C10": dict(level_note=_T + " Connects may be pipelined. Unit resume-during-teardown: the client reconnects (CleanSession=0) while the teardown of its old connection is held.",
+                assumptions=["unit resume-during-teardown: both connections of the identifier use CleanSession=0; the old connection is over from the client's side (socket closed) when the new one connects"]),
     "C11": dict(technique="; plus harness-scheduled overlapping handshakes (a CONNECT held inside a registered authenticator while other first packets are handled) and half-closed first packets (bytes and end of stream in one read)",
                 assumptions=["unit handshake-overlap: one handshake is held (in the authenticator) at a time; the others run to completion meanwhile"]),
     "C12": dict(level_note=" Client role also covers application-chosen packet identifiers (reused only after completion) and requests that cannot be encoded."),
     "C13": dict(level_note=" The buffers handed back by Acked are kept and compared again after later operations."),
     "C16": dict(level_note=_T + " A teardown that has not finished while a library goroutine stays in motion in one function for 3 s of consumed processor time is reported as a busy loop (census.Spinning)."),
     "C17": dict(level_note=_T + " In half of the broker-role cases a subscriber with a persistent session reconnects 2-8 times under traffic (CONNACK first, stream intact)."),
-    "C18": dict(level_note=" A third of the workloads contain a subscriber that stops reading while a publisher sends it more than the buffers take."),
+    "C18": dict(level_note=" A third of the workloads contain a subscriber that stops reading while a publisher sends it more than the buffers take. Unit reconnect-overlap runs the history of the known finding sig=reconnect-overlap (KNOWN_FINDINGS.txt: a client identifier is back before its old connection's teardown finished; both connections share the session object) and counts its race reports as that finding; in unit race a client reconnects only after its old connection was torn down.",
+                assumptions=["unit race: a client identifier reconnects only after the teardown of its previous connection has finished; the overlap is the recorded known finding"]),
     "C19": dict(level_note=" Silence may begin inside a packet; one scenario in half of the runs keeps sending without reading for 2.2 K (the broker stops taking its bytes) and must survive."),
     "C20": dict(level_note=" Client buffers of 32 KiB / 256 KiB / 4 MiB with deliveries at the 2/3- and 3/4-byte remaining-length boundaries are included."),
 }
